@@ -76,6 +76,7 @@ TAGS = {
     "chloop.wait": {"C10"},
     "chloop.exit": {"C10", "C09"},
     "iter.end": {"C14", "C13"},
+    "iter.drop": {"C14", "C13"},
     "stop.pool": {"C04", "C15", "C13", "C11"},
     "chfwd.begin": {"C10", "C09", "C03"},
     "stop.join": {"C04", "C15", "C13", "C11"},
@@ -156,6 +157,8 @@ def classify_replay(ctx, inst, res, behs_by_id):
         if r["outcome"] in ("diverged", "blocked", "error"):
             out.append((r["outcome"], r, b))
         elif end == "done" and r.get("tail") != "clean":
+            out.append(("hangs where the model finishes", r, b))
+        elif end == "clients" and r.get("tail") == "hung":
             out.append(("hangs where the model finishes", r, b))
         elif end == "deadlock" and r.get("tail") == "clean":
             out.append(("finishes where the model deadlocks", r, b))
